@@ -25,6 +25,11 @@ def extra(tier, rng):
     for n in ([1, 39, 40, 41, 60, 300] if full else [40, 60]):
         add("fan%d" % n, isotrees.wide_tree(rng, n, 0))
     add("dirs%d" % (1100 if full else 120), isotrees.wide_tree(rng, 3, 1100 if full else 120))
+    # directories whose records end exactly on / just before / just after a sector boundary, in either hierarchy
+    for joliet in (False, True):
+        for target in ([2046, 2048, 2050, 4096] if full else [2048, 2050, 4096]):
+            nodes, total = isotrees.exact_fill_tree(target, joliet)
+            add("fill-%s-%d-%d" % ("joliet" if joliet else "iso", target, total), nodes)
     # PARAM.SFO shapes: any key order, any number of entries
     for b, a in ([(0, 0), (1, 0), (0, 1), (5, 6)] if full else [(3, 2)]):
         add("sfo-%d-%d" % (b, a), isotrees.ps3_tree(rng, "BCES00104", b, a), ps3=True, title=["BCES", "00104"])
